@@ -29,7 +29,7 @@ EXHAUSTIVE = {"quick": "all 1561 whole-minute offsets x all spellings (read) and
 MIN_COUNTERS = {"quick": {"read_ok": 20000, "reject_checked": 3000, "write_checked": 6000, "offsets_read": 1561},
                 "thorough": {"read_ok": 400000, "reject_checked": 60000, "write_checked": 100000, "offsets_read": 1561}}
 
-NAMES = [None, "EST", "UTC", "GMT", "X", "A B", "-03", "+0530", "30", "Zoné", "EST5EDT", "a.b", ""]  # "" = a zone that has no name to give
+NAMES = [None, "EST", "UTC", "GMT", "X", "A B", "-03", "+0530", "30", "Zoné", "EST5EDT", "a.b", "", "%H%M", "100%", "%%", "GMT%z", "UTC-05:00", "%d %B"]  # "" = a zone that has no name to give
 _EPOCH = datetime.datetime(1970, 1, 1, tzinfo=datetime.timezone.utc)
 _US = datetime.timedelta(microseconds=1)
 
@@ -158,6 +158,18 @@ def check_reject(ctx, conv, text, what, case):
     ctx.violation(f"reject/accepted/{what}", f"{type(conv).__name__}().convert({text!r}) -> {got!r} (must be refused: {what})", case)
 
 
+def zone_name_verbatim(ctx, text, name, case, prefix=""):
+    """[offset:name] - the name is the zone's own name, character for character (it is data, not a template)."""
+    import re
+    m = re.search(r"\[[^:\]]*(?::(.*))?\]\Z", text, re.S)
+    written = m.group(1) if m else None
+    ctx.count("zone_names_compared")
+    if (written or "") != (name or ""):
+        ctx.violation(prefix + "write/zone-name-not-the-zone's", f"value with zone name {name!r} written as {text!r} (name part {written!r})", case)
+        return False
+    return True
+
+
 def check_write_dt(ctx, DT, value, case):
     ctx.ev()
     ctx.count("write_checked")
@@ -173,6 +185,8 @@ def check_write_dt(ctx, DT, value, case):
     name = value.tzname()
     if name is not None and any(c in name for c in "[]<&"):
         ctx.count("unspecified_skipped")
+        return
+    if not zone_name_verbatim(ctx, text, name, case):
         return
     try:
         back = R.parse_datetime(text)
@@ -206,6 +220,8 @@ def check_write_time(ctx, TM, value, case):
         return
     if not isinstance(text, str) or not R.written_datetime_ok(text, with_date=False):
         ctx.violation("time/write/bad-grammar", f"Time().unconvert({value!r}) -> {text!r}", case)
+        return
+    if not zone_name_verbatim(ctx, text, value.tzname(), case, "time/"):
         return
     back = R.parse_time(text)
     d = (back - want) % (86400 * 10**6)
